@@ -68,6 +68,21 @@ holds since the `fix:` commit that closes the transport in `disconnect()`) -/
 theorem bounded_over_cycles (n : Nat) : openAfterCycles teardownFacts n = 1 := by
   simp [openAfterCycles, afterReset, teardownFacts]
 
+/-- **a reset in an error state leaves nothing behind and runs to its end — whoever issues it and whatever the client's
+handler does**: a user reset, or the manager's own reset from inside the spa's ping-loop task (the recovery path, where
+`disconnect()` cancels the very task that runs it), with a client event handler that returns at once or really yields -/
+theorem error_state_reset_is_clean : ∀ (o : Origin) (suspends : Bool),
+    (runReset resetSteps spaDisconnectSteps facadeDisconnectSteps o suspends).ledger.clean = true ∧
+    (runReset resetSteps spaDisconnectSteps facadeDisconnectSteps o suspends).completed = true := by
+  intro o suspends; cases o <;> cases suspends <;> decide
+
+/-- non-vacuity of the clause above: moving the cancellation of the SPA tasks in front of the handler await (a one-line
+reordering of `disconnect()`) makes the self-issued reset abandon the endpoint when the client's handler yields -/
+example : (runReset resetSteps [.other, .cancelSpa, .awaitHandler, .other, .dropProtocol, .closeTransport, .unwatch]
+                     facadeDisconnectSteps .spaTask true).ledger.endpointOpen = true ∧
+    (runReset resetSteps [.other, .cancelSpa, .awaitHandler, .other, .dropProtocol, .closeTransport, .unwatch]
+                     facadeDisconnectSteps .spaTask true).completed = false := by decide
+
 /-- non-vacuity: the table covers discovery, the handshake and steady state, and contains both endpoint-creation windows -/
 example : (crashPoints.map (·.proc)).eraseDups = ["discover", "_connect", "pump-idle", "pump-connected"] ∧
     (crashPoints.filter (·.endpoint == .pending)).length = 2 ∧ crashPoints.length ≥ 20 := by decide
